@@ -527,6 +527,9 @@ def queries(tier):
                      "handler shape %r; method in %r, body text <= 2 code points (any; error-page shapes: from a fixed list), 0..2 leading empty items, failing "
                      "before-hook none/1st/2nd; %s" % (shape, METHODS, bound),
                      timeout=250 if not T else 800, per_path_timeout=60, family="shape", config={"shape": shape}))
+    # the configuration dimension: the same effective settings reached through app.setup / two setup calls
+    from vf import appconfigs
+    out += appconfigs.variants(list(out), ["setup", "setup-twice"], lambda q: q.qid in ("shape/raise_exc", "shape/ret_error", "shape/wrong_method", "shape/custom_500", "shape/file"))
     return out
 
 
